@@ -115,6 +115,11 @@ let run_probe (line : string) : string =
       json_target (route_request gen_routes gen_default_status
                      { sw_push = bool push; sw_delete = bool del; sw_blobdelete = bool bdel; sw_referrer = bool refr }
                      (cl (str m)) (cl (str p)))
+  | List [Atom "split"; limit; base; List lens] ->
+      (* descriptors are their positions; lengths as measured on Go's own encoding *)
+      let arr = Array.of_list (List.map zint lens) in
+      let (pages, dropped) = split (fun i -> arr.(i)) (zint base) (zint limit) (List.init (Array.length arr) (fun i -> i)) in
+      Printf.sprintf "{\"pages\":%s,\"dropped\":%s}" (json_list (json_list string_of_int) pages) (json_list string_of_int dropped)
   | _ -> failwith "probe"
 
 let run_case (line : string) : string =
